@@ -35,9 +35,16 @@ PROP = dict(
           "calls: a registered descriptor is closed behind Poll's back (plain close()) and its number is re-used (dup2 of another base descriptor "
           "onto it); the std::map model keeps such entries until remove() - empty() and the key set of poll() must agree with it (POLLNVAL while the "
           "number is closed, the new object's readiness afterwards); every history of length 5 over 2 descriptors x {add POLLIN, add POLLOUT, remove, "
-          "close-behind, re-use} is enumerated (10^5), rapidcheck mixes them into 1/3 of its histories."),
-    assumptions=["I/O errors are injected only as a read that fails with EINTR or EIO and consumes nothing (subcheck read_fault); the other "
-                 "subchecks inject short counts only",
+          "close-behind, re-use} is enumerated (10^5), rapidcheck mixes them into 1/3 of its histories. "
+          "read_fault also with EAGAIN as the errno of the failing read (what a non-blocking descriptor - make_fd_nonblocking, O_NONBLOCK pipes - reports while its writer pauses; nothing consumed, "
+          "the source keeps delivering): same oracle, in particular read_all(fd) / load_file throw or return everything up to end of file; enumerated for the descriptor helpers over every composition of every "
+          "total <= 6 x every call index, a third of the random read_fault cases. "
+          "scoped_fd under the close() fault: a close() call on an owned descriptor releases the descriptor and reports -1/EINTR (Linux frees the number before close can be interrupted), optionally with the "
+          "number re-used at once by an unrelated descriptor (as another thread's open would); 'close exactly once' counts close() CALLS: the expected list of close() calls per operation is unchanged, no call may fail with EBADF, "
+          "the unrelated descriptor must stay open; every sequence of length 2 (thorough: 3) over two objects x {every close call, the first, the second faulted} x {number free, re-used} is enumerated, a third of the random histories carry a fault mask."),
+    assumptions=["I/O errors are injected only as a read that fails with EINTR, EIO or EAGAIN and consumes nothing (subcheck read_fault) and as a close() that releases "
+                 "its descriptor but reports EINTR (subcheck scoped_fd); the other subchecks inject short counts only",
+                 "close() reporting EINTR has released the descriptor (Linux semantics; POSIX leaves it unspecified, HP-UX differs): a scoped_fd that calls close() again on that number is closing it twice",
                  "read_all(FILE*) after a failed stream read: only 'no padding, nothing dropped' is asserted; that it returns the "
                  "delivered prefix without throwing is reported, not counted (see excluded)",
                  "text fed to fgets contains no NUL byte (::fgets cannot represent it)",
